@@ -69,10 +69,10 @@ def encode_env(multi):
     cases = sorted(multi["assets"], key=lambda c: c["asset"])
     a.append(len(cases))
     for c in cases:
-        rows = all_rows(c)
+        rows = [(cls, r) for cls, key in enumerate(("ins", "outs", "intras")) for r in c[key]]
         a.append(len(rows))
-        for r in rows:
-            a += [r["row"]] + l5.enc_str(r.get("uid") or "") + l5.enc_str(r.get("notes") or "")
+        for cls, r in rows:           # key = 3 * row id + table (Model/FullReport.v: extra_key)
+            a += [3 * r["row"] + cls] + l5.enc_str(r.get("uid") or "") + l5.enc_str(r.get("notes") or "")
     return a
 
 
@@ -126,7 +126,134 @@ def gen_case(rng, k):
     else:
         m = l5.gen_multi(rng, country)
         m["kind"] = "general"
-    return decorate(rng, m)
+    m = decorate(rng, m)
+    if k % 5 == 2 or has_in_crypto_fee(m):
+        make_e2e(rng, m)
+    return m
+
+
+# ----------------------------------------------------------------------------- end-to-end stream (real .ini / .ods, parsed by rp2)
+OPTIONAL = {"ins": ["crypto_fee", "fiat_in_no_fee", "fiat_in_with_fee", "fiat_fee"],
+            "outs": ["crypto_out_with_fee", "fiat_out_no_fee", "fiat_fee"], "intras": []}
+TKEY = (("ins", "in"), ("outs", "out"), ("intras", "intra"))
+
+
+def has_in_crypto_fee(m):
+    return any(r.get("crypto_fee") for c in m["assets"] for r in c["ins"])
+
+
+def is_e2e(m):
+    return m.get("input") == "ods"
+
+
+def make_e2e(rng, m):
+    """turn a generated case into an end-to-end one: a random column layout (crypto_fee and unique_id mapped) and some
+    acquisitions with a crypto fee.  The parser splits such a row into the acquisition + an artificial fee-only disposal, so
+    crypto_in is raised by the fee to keep the history's balances as generated."""
+    from harness import l1
+    lay = None
+    for _ in range(400):
+        lay = l1.gen_layout(rng)
+        if "crypto_fee" in lay["in"] and all("unique_id" in lay[t] for t in l1.TABLES):
+            break
+    else:
+        lay = l1.gen_layout(rng, compact=True)
+    for c in m["assets"]:
+        for r in c["ins"]:
+            dust = hist.round_half_even_13(r["crypto_in"] * r["spot"]) == 0 and r.get("fiat_in_no_fee") is None
+            if r.get("crypto_fee"):
+                if dust or "crypto_fee" not in lay["in"]:
+                    r.pop("crypto_fee")
+                else:
+                    r["crypto_in"] += r["crypto_fee"]
+            elif r["type"] == "BUY" and r.get("fiat_fee") is None and not dust and "crypto_fee" in lay["in"] and rng.chance(40):
+                fee = rng.choice([1, 1000, 10 ** 8, r["crypto_in"] // 100 + 1])
+                r["crypto_fee"] = fee
+                r["crypto_in"] += fee
+    m["input"] = "ods"
+    m["lay"] = lay
+    m["kind"] = m.get("kind", "general") + "+ods"
+    return m
+
+
+def e2e_files(m):
+    """-> (ini text, {asset: rows}, {asset: rowmap}); deterministic in the case (the junk / gaps of each sheet are drawn
+    from a generator seeded by the sheet's content)"""
+    from harness import l1
+    lay = m["lay"]
+    names = [c["asset"] for c in m["assets"]]
+    sheets, rowmaps = {}, {}
+    for c in m["assets"]:
+        cc = {"asset": c["asset"], "exchanges": m["exchanges"], "holders": m["holders"]}
+        for key, t in TKEY:
+            rows = []
+            for r in c[key]:
+                d = {k: v for k, v in r.items() if k not in ("row", "uid", "notes")}
+                for f in OPTIONAL[key]:
+                    if f not in lay[t]:
+                        d.pop(f, None)
+                if r.get("uid") and "unique_id" in lay[t]:
+                    d["unique_id"] = r["uid"]
+                if r.get("notes") and "notes" in lay[t]:
+                    d["notes"] = r["notes"]
+                rows.append(d)
+            cc[key] = rows
+        rng = core.Rng(int(core.case_hash(cc), 16) % (2 ** 31), 51)
+        sheets[c["asset"]], rowmaps[c["asset"]], _ = l1.render(cc, lay, rng)
+    return l1.ini_text(lay, names, m["exchanges"], m["holders"]), sheets, rowmaps
+
+
+def job_of(m):
+    job = {"multi": m, "generator": "rp2_full_report"}
+    if is_e2e(m):
+        job["input"] = "ods"
+        job["ini"], job["sheets"], _ = e2e_files(m)
+    return job
+
+
+def effective_case(m, res):
+    """the case the model and the oracles see.  Constructor path: the generated case itself.  End-to-end path: the
+    transactions as the parser produced them (row ids, timestamps, accounts, types, amounts, unique ids, notes and the
+    artificial fee-only disposals come from the worker's dump of the parsed InputData); of the generating rows only the
+    information WHICH optional cells were filled is used (the derived fiat values are not on the 1e-11 grid, so the model
+    re-derives them with the constructors' rules, as the parser's second construction does)."""
+    import copy
+    from harness import l1
+    if not is_e2e(m) or not res.get("parsed"):
+        return m
+    _, _, rowmaps = e2e_files(m)
+    lay = m["lay"]
+    eff = {k: v for k, v in m.items() if k not in ("assets", "lay", "input")}
+    eff["assets"] = []
+    for c in m["assets"]:
+        a = c["asset"]
+        P = res["parsed"].get(a)
+        if P is None:
+            return m
+        new = {"asset": a, "exchanges": m["exchanges"], "holders": m["holders"]}
+        for key, t in TKEY:
+            spec = {rowmaps[a][f"{t}:{k}"]: (k, d) for k, d in enumerate(c[key])}
+            regular, art, used = [], [], set()
+            for p in P[key]:
+                row = {k: copy.deepcopy(v) for k, v in p.items() if k not in ("fiat", "crypto_fee_parsed", "crypto_out_with_fee_parsed")}
+                row["uid"] = row.get("uid") or None
+                row["notes"] = row.get("notes") or None
+                if key == "intras" and not row.get("spot"):
+                    row["spot"] = None
+                hit = spec.get(p["row"]) if p["row"] not in used else None
+                if hit is None:
+                    row["artificial"] = True
+                    art.append(row)
+                    continue
+                used.add(p["row"])
+                k, d = hit
+                for f in OPTIONAL[key]:
+                    if f in lay[t] and d.get(f) is not None:
+                        row[f] = l1.num11_of_float(l1.fnum(d[f]))
+                regular.append((k, row))
+            new[key] = [r for _, r in sorted(regular, key=lambda x: x[0])] + sorted(art, key=lambda r: abs(r["row"]))
+        eff["assets"].append(new)
+    return eff
 
 
 def corpus_cases(prop):
@@ -183,9 +310,11 @@ def fracs_of(res, multi):
 
 
 def run_cases(cases):
-    impl = l5.run_workers([{"multi": m, "generator": "rp2_full_report"} for m in cases])
+    """-> (effective cases, implementation results, raw model outputs)"""
+    impl = l5.run_workers([job_of(m) for m in cases])
+    effs = [effective_case(m, r) for m, r in zip(cases, impl)]
     lines, idx = [], []
-    for k, (m, r) in enumerate(zip(cases, impl)):
+    for k, (m, r) in enumerate(zip(effs, impl)):
         fr = fracs_of(r, m)
         if fr is not None:
             lines.append(model_line(m, fr))
@@ -194,7 +323,7 @@ def run_cases(cases):
     model = [None] * len(cases)
     for k, r in zip(idx, raw):
         model[k] = r
-    return impl, model
+    return effs, impl, model
 
 
 def collisions(multi):
@@ -207,17 +336,19 @@ def collisions(multi):
     return n
 
 
-def judge_record(multi, res, raw):
-    """everything the two checks need from one run, without the raw sheets (which are large)"""
+def judge_record(spec, multi, res, raw):
+    """everything the two checks need from one run, without the raw sheets (which are large).  spec: the generated case
+    (kept for replays), multi: the effective case (= spec, or the parsed transactions of an end-to-end case)"""
     from harness import full_oracle
-    rec = {"case": multi, "err": res.get("err"), "msg": (res.get("msg") or "")[:200], "stage": res.get("stage")}
+    rec = {"case": spec, "err": res.get("err"), "msg": (res.get("msg") or "")[:200], "stage": res.get("stage"), "e2e": is_e2e(spec)}
     v13 = full_oracle.judge_c13(multi, res)
     rec["c13"] = None if v13 is None else [[t, sorted(tg)] for t, tg in v13[:6]]
     v19 = full_oracle.judge_c19(multi, res)
     rec["c19"] = None if v19 is None else [[[t, sorted(tg)] for t, tg in v19[0][:6]], v19[1], v19[2]]
     rec["corr"] = correspondence(multi, res, raw)[:6]
     rec["corr_links"] = link_correspondence(multi, res, raw)[:6]
-    st = {"cells": 0, "nontriv13": False, "collisions": collisions(multi)}
+    st = {"cells": 0, "nontriv13": False, "collisions": collisions(multi),
+          "artificial": sum(1 for c in multi["assets"] for r in c["outs"] if r.get("artificial"))}
     if not res.get("err"):
         st["cells"] = sum(len(s["cells"]) for s in res["sheets"])
         d = res["computed"]
@@ -228,8 +359,8 @@ def judge_record(multi, res, raw):
 
 
 def judge_cases(cases):
-    impl, model = run_cases(cases)
-    return [judge_record(m, r, raw) for m, r, raw in zip(cases, impl, model)]
+    effs, impl, model = run_cases(cases)
+    return [judge_record(s_, m, r, raw) for s_, m, r, raw in zip(cases, effs, impl, model)]
 
 
 def run(tier):
@@ -349,11 +480,11 @@ def _persisting(cands, pred):
     """run the candidates in parallel, return those on which the violation persists"""
     if not cands:
         return []
-    res = l5.run_workers([{"multi": m, "generator": "rp2_full_report"} for m in cands])
+    res = l5.run_workers([job_of(m) for m in cands])
     keep = []
     for m, r in zip(cands, res):
         try:
-            if pred(m, r):
+            if pred(effective_case(m, r), r):
                 keep.append(m)
         except Exception:  # noqa: BLE001  (an oracle tripping over a degenerate candidate is not a persisting violation)
             pass
